@@ -67,6 +67,19 @@ struct Ledger
         return it != live.end() && it->second.size == n;
     }
 
+    // forget every lifetime inside [lo, hi): objects abandoned in a block (F10, value constructor threw)
+    std::size_t purge_range(std::uintptr_t lo, std::uintptr_t hi)
+    {
+        HarnessScope hs;
+        std::size_t n = 0;
+        for (auto it = live.lower_bound(lo); it != live.end() && it->first < hi;)
+        {
+            it = live.erase(it);
+            ++n;
+        }
+        return n;
+    }
+
     void destroy(const void* p, std::size_t n)
     {
         HarnessScope hs;
@@ -86,7 +99,14 @@ inline constexpr std::uint32_t MOVED32 = 0xFFFFFFFEu;
 inline constexpr std::uint32_t chk32(std::uint32_t id) noexcept { return static_cast<std::uint32_t>(mix64(id) >> 11) | 1u; }
 
 // Non-trivial, copyable and movable, alignment 1 (the library stores objects at alignment 1 by default).
-template <std::size_t N, bool MoveOnly = false>
+// F10: the k-th copy construction of a throwing-capable tracked object throws (armed per operation by the simulator)
+struct SimValueThrow
+{
+};
+inline int g_value_throw_countdown = 0;  // 0 = disarmed
+inline bool g_value_throw_fired = false;
+
+template <std::size_t N, bool MoveOnly = false, bool CanThrow = false>
 struct __attribute__((packed)) TrackedT
 {
     static_assert(N >= 9);
@@ -124,9 +144,17 @@ struct __attribute__((packed)) TrackedT
         g_ledger.construct(this, sizeof(TrackedT));
     }
 
-    TrackedT(const CopyArg& o) noexcept
+    TrackedT(const CopyArg& o) noexcept(!CanThrow)
     {
         check_source(o, "copy-construct-from");
+        if constexpr (CanThrow)
+        {
+            if (g_value_throw_countdown > 0 && --g_value_throw_countdown == 0)
+            {
+                g_value_throw_fired = true;
+                throw SimValueThrow{};
+            }
+        }
         id = o.id;
         chk = chk32(id);
         fill_pad();
@@ -194,6 +222,16 @@ template <std::size_t N>
 using Tracked = TrackedT<N, false>;
 template <std::size_t N>
 using TrackedMO = TrackedT<N, true>;
+template <std::size_t N>
+using TrackedThrow = TrackedT<N, false, true>;
+template <class T>
+struct CanThrowOnCopy : std::false_type
+{
+};
+template <std::size_t N, bool MO>
+struct CanThrowOnCopy<TrackedT<N, MO, true>> : std::true_type
+{
+};
 
 static_assert(sizeof(Tracked<12>) == 12 && alignof(Tracked<12>) == 1);
 static_assert(sizeof(Tracked<9>) == 9);
@@ -305,10 +343,10 @@ struct Codec<Pod<N>> : TrivialCodecBase<Pod<N>>
     static void assign(Pod<N>& dst, std::uint64_t c) noexcept { TrivialCodecBase<Pod<N>>::store(dst, make(c)); }
 };
 
-template <std::size_t N, bool MO>
-struct Codec<TrackedT<N, MO>>
+template <std::size_t N, bool MO, bool CT>
+struct Codec<TrackedT<N, MO, CT>>
 {
-    using T = TrackedT<N, MO>;
+    using T = TrackedT<N, MO, CT>;
     static constexpr bool TRACKED = true;
     static constexpr bool MOVE_ONLY = MO;
     static constexpr bool IDENTITY_EQ = false;
